@@ -1,8 +1,59 @@
-(* Properties/C15.v — fga.mod: accepted paths are safe, verbatim, correctly located.  Statements only. *)
-From Verif Require Import Base.Str Base.Outcome Model.ModFile.
+(* Properties/C15.v — fga.mod: accepted file paths are safe, verbatim and correctly located.
+   Statements only; proofs in Proofs/ModFileProofs.v.  [transform_mod] is the transcription of
+   TransformModFile over yaml.v3's node view (Model/ModFile.v); strings are byte strings, so the
+   statements hold for every mix of percent-encoding, letter case of the escapes and separators:
+   they are about the decoded, normalised value that is returned. *)
+From Verif Require Import Base.Str Base.Outcome Model.ModFile Proofs.ModFileProofs.
 
-Theorem C15_no_backslash : forall s, ~ In 92 (normalize_path s).
+(* 1. whenever a manifest is accepted the schema is "1.2" and every returned path is relative, has no ".."
+      segment, no backslash and ends in ".fga" *)
+Theorem C15_schema : forall schema contents f, transform_mod schema contents = Ok f -> p_value (mf_schema f) = lit "1.2".
+Proof. intros s c f H. destruct (transform_mod_ok s c f H) as [n [_ [E _]]]. exact E. Qed.
+
+Theorem C15_safe : forall schema contents f, transform_mod schema contents = Ok f ->
+  Forall (fun p => safe_path (p_value p)) (mf_contents f).
+Proof. intros s c f H. exact (proj1 (transform_mod_safe s c f H)). Qed.
+
+(* the key step: a path without the substring "../" that ends in ".fga" has no ".." segment *)
+Theorem C15_no_traversal : forall p,
+  contains (lit "../") p = false -> is_suffix (lit ".fga") p = true -> ~ dotdot_segment p.
+Proof. exact no_traversal. Qed.
+
+(* 2. one returned path per entry, in manifest order, each positioned at (line - 1, column - 1) of its entry;
+      a path written without '%', '+' and backslash is returned verbatim *)
+Theorem C15_order_and_positions : forall schema contents f, transform_mod schema contents = Ok f ->
+  exists n, contents = Some n /\ length (mf_contents f) = length (y_content n) /\
+            forall k it p, nth_error (y_content n) k = Some it -> nth_error (mf_contents f) k = Some p ->
+                           check_item it = IOk p /\ p_line p = pred (i_line it) /\ p_col p = pred (i_col it).
 Proof.
-  intros s H. unfold normalize_path, replace_char in H. apply in_map_iff in H.
-  destruct H as [c [Hc _]]. destruct (N.eqb_spec c 92); subst; try discriminate. congruence.
+  intros s c f H. destruct (proj2 (transform_mod_safe s c f H)) as [n [Ec [El Hk]]].
+  exists n. split; [exact Ec|]. split; [exact El|].
+  intros k it p Hit Hp. pose proof (Hk k it p Hit Hp) as Hc.
+  destruct (check_item_safe it p Hc) as [_ [A B]]. repeat split; assumption.
 Qed.
+
+Theorem C15_verbatim : forall it p, plain (i_value it) -> check_item it = IOk p -> p_value p = i_value it.
+Proof. exact check_item_verbatim. Qed.
+
+(* 3. a manifest with an offending entry is rejected; the errors of the contents are exactly the entries' own
+      errors, one per offending entry, in order: nothing is filtered silently *)
+Theorem C15_rejects_offending : forall schema n,
+  str_eqb (y_tag n) seq_node = true ->
+  (exists it e, In it (y_content n) /\ check_item it = IErr e) ->
+  exists es, transform_mod schema (Some n) = Err es.
+Proof. exact transform_mod_rejects_offending. Qed.
+
+Theorem C15_one_error_per_entry : forall items,
+  errs (map check_item items) = flat_map (fun it => match check_item it with IErr e => [e] | IOk _ => [] end) items.
+Proof. exact contents_errors_one_per_entry. Qed.
+
+(* 4. never a panic, whatever the node shapes *)
+Theorem C15_total : forall schema contents, is_panic (transform_mod schema contents) = false.
+Proof. exact transform_mod_total. Qed.
+
+(* non-vacuity: a mixed-encoding traversal is rejected and a percent-encoded harmless path is accepted and decoded *)
+Example C15_examples :
+  let it := fun v => {| i_tag := lit "!!str"; i_value := v; i_line := 3; i_col := 5 |} in
+  (exists e, check_item (it (lit "..%5Ca.fga")) = IErr e) /\ (exists e, check_item (it (lit "%2E%2e/a.fga")) = IErr e) /\
+  check_item (it (lit "dir%2Fa.fga")) = IOk {| p_value := lit "dir/a.fga"; p_line := 2; p_col := 4 |}.
+Proof. repeat split; try (eexists; vm_compute; reflexivity). Qed.
